@@ -245,10 +245,13 @@ Proof. intros H1 H2. unfold deployW, deploy. rewrite deploy_fullW_eq by assumpti
 Corollary agreeW_eq c :
   nodupb (names (c_infos c)) = true ->
   int64_domain (c_strat c) (c_need c) (c_limit c) (c_infos c) = true ->
+  negb (is_sorting (c_strat c)) || Nat.leb (length (c_infos c)) 12 = true ->
   agreeW c = agree c.
 Proof.
-  intros H1 H2. unfold agreeW, agree. apply nodupb_spec in H1. apply int64_domain_spec in H2.
-  rewrite deploy_fullW_eq by assumption. reflexivity.
+  intros H1 H2 H3. unfold agreeW, agree. apply nodupb_spec in H1. apply int64_domain_spec in H2.
+  rewrite H3. rewrite deploy_fullW_eq by assumption.
+  destruct (deploy_full (c_strat c) (c_need c) (c_limit c) (c_infos c) (c_total c)) as [r after].
+  try rewrite H3. reflexivity.
 Qed.
 
 (* ---- the domain conditions are needed: overflow witnesses ---- *)
